@@ -204,6 +204,8 @@ def run(R, env):
                 if how is None and (k, kind, d) in JUSTIFIED:
                     how = "I4"
                     used_just.add((k, kind, d))
+                if how is None and kind == "unwrap" and d == "payload(Map::may_load(batches))" and any(is_load(prog, s_, "pending_batch_id", "staking") for s_ in subterms(subj)):
+                    how = "I4'"  # the pending batch always exists (C06.R1 pairing of PENDING_BATCH_ID with BATCHES.save)
                 if how is None and (kind, d) in JUSTIFIED_ANYWHERE and (d != "serde_json::to_string" or any(s_[0] == "agg" and s_[1].endswith("oracle::Oracle") for s_ in subterms(subj))) and not k.endswith("::instantiate"):
                     how = "I4'"
                 R.ob("C16.R2", "%s:%s" % (kind, d), how is not None, "%s of %s is not dominated by a test of the same value and is not in the reviewed justification table (descriptor `%s`)" % (kind, fmt(subj)[:160], d), loc=b.loc(bi), fn=k)
